@@ -23,6 +23,13 @@ def jobs(tier):
         # ... with a third thread walking duplicates and traversing
         J.append(conc("1,0,0,0" if q else "2,0,0,0", workers=16, hmap=hm, init=init, enum=2, nenum=2, nops=1, ninit=1, init_keys=0,
                       prog2=prog((K_WALKK, 0), (K_WALKALL, 0)), **U))
+    # the contended key's node sits BEHIND a colliding other key in the equal-hash run (a logically removed node that is not the
+    # head of its run is only skipped by the duplicate walk's own removed test): pairs of 1- and 2-operation programs
+    for hm, init in ((0, 1), (0, 2)):
+        J.append(conc("2,0,0,0" if q else "3,0,0,0", hmap=hm, init=init, enum=2, nenum=2, nops=1, ninit=2, init_keys=0x01, **U))
+        J.append(conc("1,0,0,0" if q else "2,0,0,0", workers=16, hmap=hm, init=init, enum=2, nenum=2, nops=2, ninit=2, init_keys=0x01, **U))
+    J.append(conc("2,0,0,0", hmap=0, ninit=3, init_keys=0x021, prog0=prog((K_DEL, 0)), prog1=prog((K_LOOKUP, 0), (K_ADDU, 0)),
+                  prog2=prog((K_WALKK, 0)), **U))
     # three competing add_unique on an absent key + walker; colliding other key present
     J.append(conc("2,0,0,0", workers=16, hmap=0, ninit=1, init_keys=1, prog0=prog((K_ADDU, 0)), prog1=prog((K_ADDU, 0)),
                   prog2=prog((K_ADDU, 0)), prog3=prog((K_WALKK, 0)), **U))
